@@ -104,7 +104,8 @@ def run(ctx):
     if g is not None:
         # F16: every Ok of the by-slot roll-back has removed something - above the closest stored block, or (no stored block at or below the
         # slot) everything: the pinned tree returned Ok without touching the store in that case
-        DELQ = [Q + 'cardano_block::delete_cardano_block_and_transactions::DeleteCardanoBlockAndTransactionQuery::*']
+        DELQ = [Q + 'cardano_block::delete_cardano_block_and_transactions::DeleteCardanoBlockAndTransactionQuery::all',
+                Q + 'cardano_block::delete_cardano_block_and_transactions::DeleteCardanoBlockAndTransactionQuery::above_block_number_threshold']
         # the steps the by-slot function itself calls (not the helpers of those steps)
         direct = set()
         for c in g.logic().body.calls():
@@ -127,8 +128,10 @@ def run(ctx):
             bs_, bed_ = ctx.success_edges_of(hl, BEGIN)
             cs_ = ctx.call_sites(hb, COMMIT)
             pr_ = []
-            tables = {'blocks+transactions': ['*::DeleteCardanoBlockAndTransactionQuery::*'], 'block range roots': ['*::DeleteBlockRangeRootQuery::*'],
-                      'legacy block range roots': ['*::DeleteLegacyBlockRangeRootQuery::*']}
+            # (explicit constructor names: named definitions are never spliced into their callers, scope globs are)
+            tables = {'blocks+transactions': ['*::DeleteCardanoBlockAndTransactionQuery::all', '*::DeleteCardanoBlockAndTransactionQuery::above_block_number_threshold'],
+                      'block range roots': ['*::DeleteBlockRangeRootQuery::contains_or_above_block_number_threshold'],
+                      'legacy block range roots': ['*::DeleteLegacyBlockRangeRootQuery::contains_or_above_block_number_threshold']}
             for what, pats in tables.items():
                 qs = ctx.call_sites(hb, pats)
                 if not qs:
